@@ -3161,27 +3161,44 @@ var cyclicShapes = []string{
 	`var a = {}, b = {}, c = {}; a.b = b; b.c = c; c.a = a; [a, 1]`,
 }
 
-// child mode: c15 cyclic-child <shape>
+// the same data with every reference back into the path replaced by null (jv terms; keys ascending)
+var cyclicUnrolled = []string{
+	`(JObj [([97], JNull)])`,
+	`(JObj [([110; 101; 120; 116], JObj [([98; 97; 99; 107], JNull); ([121], JNumI KInt64 2)]); ([120], JNumI KInt64 1)])`,
+	`(JArr [Some JNull])`,
+	`(JObj [([108; 105; 115; 116], JArr [Some (JObj [([111; 119; 110; 101; 114], JNull)])])])`,
+	`(JArr [Some (JObj [([98], JObj [([99], JObj [([97], JNull)])])]); Some (JNumI KInt64 1)])`,
+}
+
+// child mode: c15 cyclic-child <shape>; prints the exported value as a gv term
 func cyclicChild(shape int) {
-	debug.SetMaxStack(32 << 20) // die quickly instead of growing the stack to 1 GB
+	debug.SetMaxStack(32 << 20) // if Export does not return, die quickly instead of growing the stack to 1 GB
 	vm := otto.New()
 	v, err := vm.Run(cyclicShapes[shape])
 	if err != nil {
 		fmt.Println("run error", err)
 		os.Exit(3)
 	}
-	x, _ := v.Export()
-	fmt.Printf("exported %T\n", x)
+	x, err := v.Export()
+	if err != nil {
+		fmt.Println("export error", err)
+		os.Exit(4)
+	}
+	fmt.Printf("GV %s\n", gvOf(x))
 	os.Exit(0)
 }
 
 func (g *gen) cyclicCase(shape int) {
 	cmd := exec.Command(os.Args[0], "cyclic-child", fmt.Sprint(shape))
 	out, err := cmd.CombinedOutput()
-	obs := 0
 	shown := strings.TrimSpace(string(out))
-	if err != nil {
-		obs = 1
+	ob := "OPanic"
+	if err == nil && strings.HasPrefix(shown, "GV ") {
+		ob = "(OVal " + strings.TrimPrefix(shown, "GV ") + ")"
+	} else if err != nil {
+		if ee, ok := err.(*exec.ExitError); ok && (ee.ExitCode() == 3 || ee.ExitCode() == 4) {
+			ob = "(OErr 8)"
+		}
 		if i := strings.Index(shown, "\n"); i > 0 {
 			shown = shown[:i]
 		}
@@ -3190,5 +3207,5 @@ func (g *gen) cyclicCase(shape int) {
 		}
 		shown = fmt.Sprintf("child process died (%v): %s", err, shown)
 	}
-	g.env.Add(fmt.Sprintf("CCyclic %d %d", shape, obs), fmt.Sprintf("Export of a cyclic graph in a child process: %s -> %s", cyclicShapes[shape], shown), "export-cyclic", true)
+	g.env.Add(fmt.Sprintf("CCyclic %d %s %s", shape, cyclicUnrolled[shape], ob), fmt.Sprintf("Export of a cyclic graph in a child process: %s -> %s", cyclicShapes[shape], shown), "export-cyclic", true)
 }
